@@ -22,6 +22,7 @@ Step(a) == /\ rest # <<>> /\ st.status = "Reading"
            /\ ReaderAction(Head(rest), DEVS) = a
            /\ st' = ReaderRead(st, Head(rest), DEVS)
            /\ rest' = Tail(rest) /\ hist' = Append(hist, Head(rest))
+           /\ PrintT(<<"ACT", a>>)          \* vacuity guard: the check counts the actions taken
 Deliver == Step("Deliver")
 Skip    == Step("Skip")
 Stop    == Step("Stop")
